@@ -756,3 +756,43 @@ def ruleset_info_keys(ctx, rule, floor=4):
                     'subscript fails and a .get() silently yields its default', {'written': sorted(written)}, node, firm=True)
     if ctx.floor(rule, 'lib_guesser/grammar_io.py', len(reads), floor, 'reads of ruleset_info by constant key') and ok:
         ctx.ok(rule, 'lib_guesser/grammar_io.py', 'the %d reads of ruleset_info use keys the loader writes (%s)' % (len(reads), sorted(written)))
+
+
+def loader_prob_verbatim(ctx, rule, floor=2):
+    """The probability a terminal loader stores is the number in the file: `float(<field>)`, neither clamped, rounded nor
+    filtered by its value.  (Seed C01-ga: `max(float(..), sys.float_info.epsilon)` in the guesser's loader - terminals below 2.2e-16
+    are lifted, adjacent groups merge and the attached probabilities are no longer products of the ruleset's numbers; seed C07-ga:
+    the scorer's loader skips lines whose probability is not strictly inside (0, 1) - a file with a single value, probability
+    exactly 1.0, loads as empty while the guesser loads it.)"""
+    n = 0
+    ok = True
+    for q in ('lib_guesser/grammar_io.py::_load_from_file', 'lib_scorer/grammar_io.py::_load_from_file'):
+        fn = ctx.fn(q)
+        ctx.stats['functions'].add(q)
+
+        def is_float_of_field(v):
+            return isinstance(v, ast.Call) and call_name(v) == 'float' and len(v.args) == 1 and isinstance(v.args[0], ast.Subscript)
+        pnames = set()
+        for st in walk_local(fn):
+            if isinstance(st, ast.Assign) and any(is_float_of_field(x) for x in ast.walk(st.value)):
+                n += 1
+                if is_float_of_field(st.value):
+                    pnames.update(t.id for t in st.targets if isinstance(t, ast.Name))
+                else:
+                    ok = False
+                    ctx.bad(rule, q, 'probability rewritten on load: ' + U(st)[:70], 'every tool must read the same number from the same '
+                            'line: a clamp / rounding / scaling in one loader changes groups, order and attached probabilities for the '
+                            'values it touches (very small, zero, one)', None, st, firm=True)
+        for st in walk_local(fn):
+            if isinstance(st, ast.If) and any((isinstance(x, ast.Name) and x.id in pnames) or is_float_of_field(x) for x in ast.walk(st.test)):
+                t = st.test
+                grouping = isinstance(t, ast.Compare) and len(t.ops) == 1 and isinstance(t.ops[0], (ast.Eq, ast.NotEq)) \
+                    and all(isinstance(x, ast.Name) or is_float_of_field(x) for x in [t.left] + t.comparators)
+                jumps = [x for b in (st.body, st.orelse) for s_ in b for x in ast.walk(s_) if isinstance(x, (ast.Continue, ast.Return, ast.Raise, ast.Break))]
+                if jumps and not grouping:
+                    ok = False
+                    ctx.bad(rule, q, 'line skipped by the value of its probability: if %s' % U(t)[:50], 'a line is part of the ruleset '
+                            'whatever its probability (0.0 and 1.0 are written by the trainer: an unseen OMEN level, a list with one '
+                            'value): a loader that drops it disagrees with the loaders that keep it', None, st, firm=True)
+    if ctx.floor(rule, 'lib_guesser/grammar_io.py', n, floor, 'probability reads in the terminal loaders') and ok:
+        ctx.ok(rule, 'lib_guesser/grammar_io.py', 'both terminal loaders store float(<field>) as read and skip no line by its probability (%d reads)' % n)
